@@ -94,6 +94,11 @@ class Facts:
             b = any_bound(t)
             if b is not None:
                 self.forall.append((strip_iter(t[2][0]), b))
+        if t[0] == "call" and isinstance(t[1], str) and re.search(r"Iterator>?::all$", t[1]) and val is True and FB is not None and len(t[2]) == 2:
+            # `seq.iter().all(|&i| i < K)` is true: every element is below K
+            b = closure_bound(t[2][1], ("Lt", "Le"))
+            if b is not None:
+                self.forall.append((strip_iter(t[2][0]), fold_bin("Add", b[1], mk_const("usize", 1)) if b[0] == "Le" else b[1]))
         op = None
         if t[0] == "bin" and t[1] in ("Lt", "Le", "Gt", "Ge", "Eq", "Ne"):
             op, x, y = t[1], t[2], t[3]
